@@ -722,6 +722,15 @@ def _run_module(r, rng, n, inj, Mod, IDLE, BUSY, ERROR):
         m.slow_cleanup = rng.random() < 0.4
         m.script = [rng.choice(['retry', 'retry', 'next', 'finish', 'raise', 'final']) for _ in range(rng.randint(0, 8))]
         ops = [rng.choice(['poll', 'poll', 'poll', 'start', 'stop', 'go']) for _ in range(rng.randint(3, 12))]
+        if rng.random() < 0.15:
+            # directed: a request revoked again inside one cleanup window (stop, restart, stop while the cleanup of the first
+            # stop is still in progress) - the most recent request wins
+            m.slow_cleanup = True
+            first = rng.choice(['start', 'go'])
+            ops = [first] + ['poll'] * rng.randint(1, 3) + ['stop'] + ['poll'] * rng.randint(0, 2) + \
+                [rng.choice(['start', 'go'])] + ['poll'] * rng.choice([0, 0, 1]) + ['stop'] + \
+                [rng.choice(['poll', 'poll', 'stop', 'start']) for _ in range(rng.randint(0, 3))]
+            m.script = [rng.choice(['retry', 'retry', 'retry', 'next']) for _ in range(rng.randint(4, 8))]
         script0 = list(m.script)
         statuses = []
         active_from = None
